@@ -293,6 +293,20 @@ func c07Mutate(doc map[string]interface{}, mut string) bool {
 			}
 		}
 		return true
+	case "addbn":
+		// a claim under a term that an APPENDED inline context maps to a blank node identifier: JSON-LD to RDF drops
+		// properties whose IRI is a blank node, so the statement never reaches the signed statements
+		ctx, ok := doc["@context"].([]interface{})
+		if !ok {
+			return false
+		}
+		doc["@context"] = append(append([]interface{}{}, ctx...), map[string]interface{}{"alumniOf": "_:alumniOf"})
+		if f[1] == "subject" {
+			c07Subject(doc)["alumniOf"] = "Example University"
+		} else {
+			doc["alumniOf"] = "Example University"
+		}
+		return true
 	case "adddef", "addundef":
 		key, val := "extra", interface{}("added")
 		if f[0] == "addundef" {
@@ -863,6 +877,9 @@ func c07Gen(r *Rng, tier string) []string {
 			repr = r.Pick([]string{"pv", "jws"})
 			if r.N(3) != 0 {
 				mut = r.Pick([]string{"addundef", "addundef", "adddef"}) + ":" + r.Pick([]string{"subject", "subj2", "issuer", "top"})
+				if r.N(6) == 0 {
+					mut = "addbn:" + r.Pick([]string{"top", "subject"})
+				}
 			}
 		}
 		out = append(out, fmt.Sprintf("%s|%s|%d|%s", s, repr, seed, mut))
